@@ -19,12 +19,13 @@ R.assume("assumed contracts (not verified): PeerStats.add_received_req / add_pro
 
 R.macro("peer_of", ["n", "c"],
         "ite(c.node_name in n.peers, n.peers[c.node_name], ite(c.host_identity in n.peers, n.peers[c.host_identity], None))")
-R.inline_fn("Node._find_connection_peer")
+R.contract("Node._find_connection_peer", params={"self": "Node", "conn": "PeerConnection"}, returns="Opt[Peer]",
+           ensures=[("lookup", "result == peer_of(self, conn)")], pure=True, props=["C08", "C11", "C13"])
 R.macro("out", ["c"], "c._write_msg_queue.g_put")     # ghost: every message ever queued on the connection
 R.macro("is_req", ["m"], "bit7(m.header.command_flags) == 1")
 
 R.contract("PeerConnection.add_out_msg", params={"self": "PeerConnection", "out_msg": "Message"},
-           ghost_modifies=["list:self._write_msg_queue.g_put"],
+           ghost_modifies=["self._write_msg_queue.g_put"],
            ensures=[("queued", "items(out(self)) == old(items(out(self))) + [out_msg]")],
            props=["C07", "C15"])
 R.contract("Node._update_peer_counters",
@@ -41,10 +42,18 @@ R.macro("mkey", ["m"], "fstr('{}:{}', m.header.hop_by_hop_identifier, m.header.e
 R.macro("dq_push", ["xs", "x", "ml"], "ite(ml <= 0, xs[0:0], ite(len(xs) >= ml, xs[1:] + [x], xs + [x]))")
 R.macro("window", ["n", "o"], "ite(o in n._sent_answers, items(n._sent_answers[o]), items(n._sent_answers[o])[0:0])")
 R.macro("dq_ok", ["d"], "len(d) <= maxlen(d) or maxlen(d) <= 0")
+R.macro("win_ok", ["n", "o"], "implies(o in n._sent_answers, dq_ok(n._sent_answers[o]))")
+R.macro("sa_untouched", ["n"], "unchanged(n._sent_answers) and unchanged('deque:int') and unchanged(n._origin_waiting_answer)")
+R.macro("win_sep", ["n", "o", "x"], "implies(o in n._sent_answers and x in n._sent_answers and o != x, "
+                                     "n._sent_answers[o] != n._sent_answers[x])")
+R.macro("win_same", ["n", "o"], "(o in n._sent_answers) == old(o in n._sent_answers) and "
+                                "implies(o in n._sent_answers, n._sent_answers[o] == old(n._sent_answers[o]) and "
+                                "items(n._sent_answers[o]) == old(items(n._sent_answers[o])) and "
+                                "maxlen(n._sent_answers[o]) == old(maxlen(n._sent_answers[o])))")
 
 R.contract("Node._record_answer", params={"self": "Node", "conn": "PeerConnection", "message": "Message"},
            ghost={"o": "Opt[bytes]"},
-           requires=[("window-well-formed", "implies(o in self._sent_answers, len(self._sent_answers[o]) <= maxlen(self._sent_answers[o]))"),
+           requires=[("window-well-formed", "win_ok(self, o)"),
                      ("windows-not-shared",
                       "implies(mkey(message) in self._origin_waiting_answer and o in self._sent_answers and "
                       "self._origin_waiting_answer[mkey(message)][0] in self._sent_answers and "
@@ -63,7 +72,8 @@ R.contract("Node._record_answer", params={"self": "Node", "conn": "PeerConnectio
                      "implies(old(mkey(message) in self._origin_waiting_answer) and "
                      "old(self._origin_waiting_answer[mkey(message)][0]) != o, "
                      "(o in self._sent_answers) == old(o in self._sent_answers) and window(self, o) == old(window(self, o)))"),
-                    ("pending-entry-released", "not (mkey(message) in self._origin_waiting_answer)")],
+                    ("pending-entry-released", "not (mkey(message) in self._origin_waiting_answer)"),
+                    ("windows-stay-well-formed", "win_ok(self, o)")],
            raises=[Raise("TypeError", "mkey(message) in self._origin_waiting_answer and "
                                       "not is_none(peer_of(self, conn)) and hasattr(message, 'result_code') and "
                                       "(not has(message, 'result_code') or is_none(message.result_code))", "only_if")],
@@ -71,3 +81,277 @@ R.contract("Node._record_answer", params={"self": "Node", "conn": "PeerConnectio
                      "deque:self._sent_answers[self._origin_waiting_answer[mkey(message)][0]] "
                      "if mkey(message) in self._origin_waiting_answer"],
            props=["C17", "C19"])
+
+R.macro("pwa_has", ["n", "h", "x"], "h in n._peer_waiting_answer and x in n._peer_waiting_answer[h]")
+_REC_TYPEERR = ("mkey(message) in self._origin_waiting_answer and not is_none(peer_of(self, conn)) and "
+                "hasattr(message, 'result_code') and (not has(message, 'result_code') or is_none(message.result_code))")
+R.contract("Node.send_message", params={"self": "Node", "conn": "PeerConnection", "message": "Message"},
+           ghost={"o": "Opt[bytes]"},
+           requires=[("flags-octet", "0 <= message.header.command_flags < 256"),
+                     ("window-well-formed", "win_ok(self, o)"),
+                     ("windows-not-shared",
+                      "implies(mkey(message) in self._origin_waiting_answer and o in self._sent_answers and "
+                      "self._origin_waiting_answer[mkey(message)][0] in self._sent_answers and "
+                      "self._origin_waiting_answer[mkey(message)][0] != o, "
+                      "self._sent_answers[o] != self._sent_answers[self._origin_waiting_answer[mkey(message)][0]])")],
+           ensures=[("windows-stay-well-formed", "win_ok(self, o)"),
+                    ("queued-once", "items(out(conn)) == old(items(out(conn))) + [message]"),
+                    ("answer-releases-pending-hbh",
+                     "implies(not is_req(message), not pwa_has(self, conn.host_identity, message.header.hop_by_hop_identifier))"),
+                    ("request-keeps-window", "implies(is_req(message), (o in self._sent_answers) == old(o in self._sent_answers) "
+                                             "and window(self, o) == old(window(self, o)))"),
+                    ("answered-id-enters-window",
+                     "implies(not is_req(message) and old(mkey(message) in self._origin_waiting_answer) and "
+                     "old(self._origin_waiting_answer[mkey(message)][0]) == o, "
+                     "o in self._sent_answers and window(self, o) == "
+                     "old(dq_push(window(self, o), message.header.end_to_end_identifier, "
+                     "ite(o in self._sent_answers, maxlen(self._sent_answers[o]), self.retransmit_queue_size))))")],
+           raises=[Raise("TypeError", "not is_req(message) and " + _REC_TYPEERR, "only_if")],
+           ensures_exc={"TypeError": [("queued-before-failing", "items(out(conn)) == old(items(out(conn))) + [message]")]},
+           ghost_modifies=["conn._write_msg_queue.g_put"],
+           modifies=["dict:self._sent_answers if not is_req(message)",
+                     "dict:self._origin_waiting_answer if not is_req(message)",
+                     "deque:self._sent_answers[self._origin_waiting_answer[mkey(message)][0]] "
+                     "if not is_req(message) and mkey(message) in self._origin_waiting_answer",
+                     "dict:self._peer_waiting_answer[conn.host_identity] "
+                     "if not is_req(message) and conn.host_identity in self._peer_waiting_answer"],
+           props=["C07", "C09", "C17", "C19"])
+
+# ---- handlers called by _receive_message -------------------------------------------------------------------
+R.model("Application", fields={"g_requests": "Seq[Message]", "g_answers": "Seq[Message]"})
+R.model("FailedAvp", builtin=True, fields={})
+R.contract("FailedAvp.__new__", trusted=True, params={"additional_avps": "List[Avp]"}, returns="FailedAvp", allocates=True)
+R.model("Node", fields={"g_dlv_app": "Seq[Application]", "g_dlv_msg": "Seq[Message]",
+                        "g_ans_app": "Seq[Application]", "g_ans_msg": "Seq[Message]"})
+R.contract("Application.receive_request", trusted=True, params={"self": "Application", "message": "Message"},
+           requires=[("registered", "not is_none(self._node)")],
+           raises=[Raise("Exception", "True", "may")],
+           ghost_modifies=["some(self._node).g_dlv_app", "some(self._node).g_dlv_msg"],
+           ghost_ensures=["items(some(self._node).g_dlv_app) == old(items(some(self._node).g_dlv_app)) + [self]",
+                          "items(some(self._node).g_dlv_msg) == old(items(some(self._node).g_dlv_msg)) + [message]"],
+           ensures_exc={"Exception": ["items(some(self._node).g_dlv_app) == old(items(some(self._node).g_dlv_app)) + [self]",
+                                      "items(some(self._node).g_dlv_msg) == old(items(some(self._node).g_dlv_msg)) + [message]"]},
+           note="behavioural contract of the user-facing hook: hands the request to the application (ghost log), may raise "
+                "anything, transmits nothing synchronously (assumption about user handlers; ThreadingApplication only enqueues)")
+R.contract("Application.receive_answer", trusted=True, params={"self": "Application", "message": "Message"},
+           requires=[("registered", "not is_none(self._node)")],
+           raises=[Raise("Exception", "True", "may")],
+           ghost_modifies=["some(self._node).g_ans_app", "some(self._node).g_ans_msg"],
+           ghost_ensures=["items(some(self._node).g_ans_app) == old(items(some(self._node).g_ans_app)) + [self]",
+                          "items(some(self._node).g_ans_msg) == old(items(some(self._node).g_ans_msg)) + [message]"],
+           modifies=["*WaitingMessage.answer", "*Event.flag"])
+R.assume("user request/answer handlers may raise anything but transmit nothing synchronously on the node's connections")
+
+R.contract("validate_message_avps", trusted=True, params={"msg": "Message"}, returns="List[Avp]",
+           ensures=["fresh(result)"], note="C08 verifies it; here only its frame (modifies nothing) is used")
+
+# one node-built answer to `message` queued on `conn` (and nothing else queued there)
+R.macro("mirrors", ["a", "m"],
+        "a.header.hop_by_hop_identifier == m.header.hop_by_hop_identifier and "
+        "a.header.end_to_end_identifier == m.header.end_to_end_identifier and "
+        "a.header.application_id == m.header.application_id and bit7(a.header.command_flags) == 0 and "
+        "ite(is_generic_msg(a), a.header.command_code == m.header.command_code, a.header.command_code == class_code(a))")
+R.macro("one_answer", ["c", "m", "rc"],
+        "len(out(c)) == old(len(out(c))) + 1 and items(out(c))[0:old(len(out(c)))] == old(items(out(c))) and "
+        "mirrors(items(out(c))[old(len(out(c)))], m) and items(out(c))[old(len(out(c)))].result_code == rc")
+R.macro("nothing_sent", ["c"], "items(out(c)) == old(items(out(c)))")
+_NODE_READY = [("flags-octet", "0 <= message.header.command_flags < 256"),
+               ("identity-encodable", "encodable(self.origin_host) and encodable(self.realm_name)"),
+               ("is-request", "is_req(message)")]
+_ANSWER_MODS = ["dict:self._sent_answers", "dict:self._origin_waiting_answer", "*$deques",
+                "dict:self._peer_waiting_answer[conn.host_identity] if conn.host_identity in self._peer_waiting_answer"]
+_WIN_REQ = [("window-well-formed", "win_ok(self, o)"),
+            ("windows-not-shared",
+             "implies(mkey(message) in self._origin_waiting_answer and o in self._sent_answers and "
+             "self._origin_waiting_answer[mkey(message)][0] in self._sent_answers and "
+             "self._origin_waiting_answer[mkey(message)][0] != o, "
+             "self._sent_answers[o] != self._sent_answers[self._origin_waiting_answer[mkey(message)][0]])")]
+_ANS_MODS = ["dict:self._sent_answers", "dict:self._origin_waiting_answer",
+             "deque:self._sent_answers[self._origin_waiting_answer[mkey(message)][0]] "
+             "if mkey(message) in self._origin_waiting_answer",
+             "dict:self._peer_waiting_answer[conn.host_identity] if conn.host_identity in self._peer_waiting_answer"]
+_WIN_ENS = [("windows-stay-well-formed", "win_ok(self, o)"), ("answered-id-enters-window",
+             "implies(old(mkey(message) in self._origin_waiting_answer) and "
+             "old(self._origin_waiting_answer[mkey(message)][0]) == o, "
+             "o in self._sent_answers and window(self, o) == "
+             "old(dq_push(window(self, o), message.header.end_to_end_identifier, "
+             "ite(o in self._sent_answers, maxlen(self._sent_answers[o]), self.retransmit_queue_size))))")]
+
+R.inline_fn("PeerConnection.reset_last_dwa", "PeerConnection.reset_last_dwr")
+R.contract("Node.receive_dwr", params={"self": "Node", "conn": "PeerConnection", "message": "Message"},
+           ghost={"o": "Opt[bytes]"}, requires=_NODE_READY + _WIN_REQ,
+           ensures=[("one-2001-dwa", "one_answer(conn, message, 2001)"),
+                    ("origin-state-id", "items(out(conn))[old(len(out(conn)))].origin_state_id == self.state_id"),
+                    ("state-untouched", "conn.state == old(conn.state)")] + _WIN_ENS,
+           ghost_modifies=["conn._write_msg_queue.g_put"], modifies=_ANS_MODS, props=["C07", "C11"])
+R.contract("Node.receive_dpr", params={"self": "Node", "conn": "PeerConnection", "message": "Message"},
+           ghost={"o": "Opt[bytes]"}, requires=_NODE_READY + _WIN_REQ,
+           ensures=[("one-2001-dpa", "one_answer(conn, message, 2001)"),
+                    ("no-longer-routable", "conn.state == %d" % DISCONNECTING),
+                    ("reason-recorded", "implies(not is_none(old(peer_of(self, conn))), "
+                                        "some(old(peer_of(self, conn))).disconnect_reason == %d)" % R_DPR)] + _WIN_ENS,
+           ghost_modifies=["conn._write_msg_queue.g_put"],
+           modifies=_ANS_MODS + ["conn.state", "*Peer.disconnect_reason"], props=["C07", "C12"])
+R.contract("Node.receive_dwa", params={"self": "Node", "conn": "PeerConnection", "message": "Message"},
+           ensures=[("ready-again", "conn.state == ite(old(conn.state) == %d, %d, old(conn.state))" % (READY_WAITING_DWA, READY)),
+                    ("timer-cleared", "conn._last_dwr == 0"), ("nothing-sent", "nothing_sent(conn)")],
+           modifies=["conn.state", "conn._last_dwr"], props=["C07", "C11"])
+R.contract("Node.receive_dpa", params={"self": "Node", "conn": "PeerConnection", "message": "Message"},
+           ensures=[("closing", "conn.state == %d" % CLOSING), ("nothing-sent", "nothing_sent(conn)")],
+           modifies=["conn.state"], props=["C07", "C18"])
+
+# ---- C08: request dispatch ---------------------------------------------------------------------------------
+from pyvc.spec import REG as _R2
+from pyvc.values import VBool as _VB
+from pyvc.models import _ufun as _uf
+from pyvc.smt import INT as _INT, BOOL as _BOOL
+
+
+@R.specfn("is_app")
+def _is_app(ex, st, tok):
+    return _VB(_uf(ex, "tok_isinst", [_INT, _INT], _BOOL, ex.unwrap(tok).t, ex.class_id("Application")))
+
+
+@R.specfn("as_app")
+def _as_app(ex, st, tok):
+    from pyvc.values import VRef
+    return VRef(ex.unwrap(tok).t, "Application")
+
+
+R.macro("routes", ["n", "realm"], "n._peer_routes[realm]")
+R.macro("app_matches", ["n", "c", "realm", "k", "appid"],
+        "k in routes(n, realm) and is_app(k) and as_app(k).application_id == appid and "
+        "implies(not is_none(peer_of(n, c)), some(peer_of(n, c)) in routes(n, realm)[k])")
+R.macro("app_matched_before", ["n", "c", "m", "k"], "old(app_matches(n, c, realm_of(m), k, m.header.application_id))")
+R.macro("delivered_to", ["n", "a", "m"], "items(n.g_dlv_app) == old(items(n.g_dlv_app)) + [a] and items(n.g_dlv_msg) == old(items(n.g_dlv_msg)) + [m]")
+R.macro("no_delivery", ["n"], "items(n.g_dlv_app) == old(items(n.g_dlv_app)) and items(n.g_dlv_msg) == old(items(n.g_dlv_msg))")
+@R.specfn("app_registered")
+def _app_registered(ex, st, node, tok):
+    """Inv_routes instance: an Application key of the route table is registered with this node (add_application)"""
+    from pyvc.smt import Implies, Eq, Not
+    from pyvc.values import VRef
+    a = VRef(ex.unwrap(tok).t, "Application")
+    isapp = _uf(ex, "tok_isinst", [_INT, _INT], _BOOL, a.t, ex.class_id("Application"))
+    nd = ex.read_field(st, a, "_node")
+    return _VB(Implies(isapp, ex.values_equal(st, nd, ex.unwrap(node))))
+
+R.macro("realm_of", ["m"], "utf8dec(some(m.destination_realm))")
+
+R.contract("Node._receive_app_request", params={"self": "Node", "conn": "PeerConnection", "message": "Message"},
+           ghost={"o": "Opt[bytes]", "w": "Any:routekey"},
+           requires=_NODE_READY + _WIN_REQ + [
+               ("realm-attr-set", "implies(hasattr(message, 'destination_realm'), has(message, 'destination_realm') and "
+                                  "not is_none(message.destination_realm) and valid_utf8(some(message.destination_realm)))")],
+           ensures=[("no-realm-3007", "implies(not old(hasattr(message, 'destination_realm')), one_answer(conn, message, 3007))"),
+                    ("foreign-realm-3003", "implies(old(hasattr(message, 'destination_realm')) and "
+                                           "not old(realm_of(message) in self._peer_routes), one_answer(conn, message, 3003))"),
+                    ("no-matching-app-3007",
+                     "implies(old(hasattr(message, 'destination_realm')) and old(realm_of(message) in self._peer_routes) and "
+                     "len(out(conn)) == old(len(out(conn))) + 1, "
+                     "items(out(conn))[old(len(out(conn)))].result_code == 3007 and mirrors(items(out(conn))[old(len(out(conn)))], message) "
+                     "and not old(app_matches(self, conn, realm_of(message), w, message.header.application_id)))"),
+                    ("at-most-one-answer", "len(out(conn)) <= old(len(out(conn))) + 1 and "
+                                           "items(out(conn))[0:old(len(out(conn)))] == old(items(out(conn)))"),
+                    ("delivery-exactly-once-to-a-matching-app",
+                     "no_delivery(self) or (len(self.g_dlv_app) == old(len(self.g_dlv_app)) + 1 and "
+                     "delivered_to(self, items(self.g_dlv_app)[old(len(self.g_dlv_app))], message) and nothing_sent(conn) and "
+                     "app_matched_before(self, conn, message, items(self.g_dlv_app)[old(len(self.g_dlv_app))]))"),
+                    ("answered-or-delivered", "no_delivery(self) == (len(out(conn)) == old(len(out(conn))) + 1)"),
+                    ("windows-stay-well-formed", "win_ok(self, o)")],
+           raises=[Raise("Exception", "True", "may")],
+           ensures_exc={"Exception": [("failing-sends-nothing", "nothing_sent(conn)"), ("failing-keeps-windows", "sa_untouched(self)")]},
+           ghost_modifies=["conn._write_msg_queue.g_put", "self.g_dlv_app", "self.g_dlv_msg"],
+           modifies=_ANS_MODS + ["dict:self._peer_waiting_answer",
+                                 "dict:self._peer_waiting_answer[conn.host_identity] if conn.host_identity in self._peer_waiting_answer"],
+           props=["C08", "C07"])
+R.loop("Node._receive_app_request", 0,
+       invariants=[("none-chosen-yet", "is_none(receiving_app)"),
+                   ("visited-do-not-match", "implies(w in done, not app_matches(self, conn, realm_name, w, app_id))"),
+                   ("nothing-happened", "nothing_sent(conn) and no_delivery(self) and realm_name == old(realm_of(message)) and "
+                                        "app_id == message.header.application_id and peer == old(peer_of(self, conn))")],
+       hints=["app_registered(self, cur)"],
+       local_kinds={"receiving_app": "Opt[Application]"})
+R.kind_hints[("Node._receive_app_request", "{}")] = "Dict[int,float]"
+
+R.contract("Node._receive_app_answer", params={"self": "Node", "conn": "PeerConnection", "message": "Message"},
+           requires=[("apps-registered", "implies(mkey(message) in self._app_waiting_answer, "
+                                         "self._app_waiting_answer[mkey(message)]._node == self)")],
+           ensures=[("nothing-sent", "nothing_sent(conn)"),
+                    ("only-the-recorded-app",
+                     "items(self.g_ans_app) == old(items(self.g_ans_app)) or "
+                     "(old(mkey(message) in self._app_waiting_answer) and "
+                     "items(self.g_ans_app) == old(items(self.g_ans_app)) + [old(self._app_waiting_answer[mkey(message)])] and "
+                     "items(self.g_ans_msg) == old(items(self.g_ans_msg)) + [message] and "
+                     "old(self._app_waiting_answer[mkey(message)]) in self.applications)"),
+                    ("unknown-id-ignored", "implies(not old(mkey(message) in self._app_waiting_answer), "
+                                           "items(self.g_ans_app) == old(items(self.g_ans_app)))")],
+           raises=[Raise("Exception", "True", "may")],
+           ghost_modifies=["self.g_ans_app", "self.g_ans_msg"],
+           modifies=["*WaitingMessage.answer", "*Event.flag"], props=["C10", "C07"])
+
+# capabilities exchange handlers: contracts used by _receive_message (verified under C06)
+R.contract("Node.receive_cer", params={"self": "Node", "conn": "PeerConnection", "message": "Message"},
+           ghost={"o": "Opt[bytes]"}, requires=_NODE_READY + _WIN_REQ,
+           ensures=[("windows-stay-well-formed", "win_ok(self, o)"),
+                    ("exactly-one-cea", "len(out(conn)) == old(len(out(conn))) + 1 and "
+                                        "items(out(conn))[0:old(len(out(conn)))] == old(items(out(conn))) and "
+                                        "mirrors(items(out(conn))[old(len(out(conn)))], message)")] + _WIN_ENS,
+           raises=[Raise("Exception", "True", "may")],
+           ensures_exc={"Exception": [("nothing-sent-when-failing", "nothing_sent(conn)"), ("failing-keeps-windows", "sa_untouched(self)")]},
+           ghost_modifies=["conn._write_msg_queue.g_put"],
+           modifies=_ANS_MODS + ["*PeerConnection.state", "conn.node_name", "conn.auth_application_ids",
+                                 "conn.acct_application_ids", "conn.origin_host", "conn.host_identity",
+                                 "conn.host_ip_address", "*Peer.connection", "*Peer.disconnect_reason", "*Peer.last_connect",
+                                 "dict:self._half_ready_connections", "*Event.flag", "*StoppableThread.stopped"],
+           trusted=True, props=[],
+           note="ASSUMED here (C07 uses it); C06 verifies the capabilities-exchange outcome cases separately")
+R.contract("Node.receive_cea", params={"self": "Node", "conn": "PeerConnection", "message": "Message"},
+           ensures=[("nothing-sent", "nothing_sent(conn)")],
+           raises=[Raise("Exception", "True", "may")],
+           ensures_exc={"Exception": [("nothing-sent-when-failing", "nothing_sent(conn)")]},
+           modifies=["*PeerConnection.state", "conn.auth_application_ids", "conn.acct_application_ids", "conn.host_identity",
+                     "*Peer.connection", "*Peer.disconnect_reason", "*Peer.last_connect", "*Peer.last_disconnect",
+                     "dict:self._half_ready_connections", "dict:self.connections", "dict:self.peer_sockets",
+                     "dict:self._peer_waiting_answer", "*Event.flag", "*StoppableThread.stopped", "*Socket.closed"],
+           trusted=True, props=[],
+           note="ASSUMED here; raises for a CEA lacking Origin-Host / Result-Code (AttributeError), sends nothing")
+R.assume("assumed contracts (read from the code, not verified yet): Node.receive_cer, Node.receive_cea as used by _receive_message")
+
+R.macro("dup_cond", ["n", "m"],
+        "hasattr(m, 'origin_host') and is_req(m) and bit4(m.header.command_flags) == 1 and "
+        "m.origin_host in n._sent_answers and m.header.end_to_end_identifier in n._sent_answers[m.origin_host]")
+R.macro("new_out", ["c"], "items(out(c))[old(len(out(c)))]")
+R.contract("Node._receive_message", params={"self": "Node", "conn": "PeerConnection", "msg": "Message"},
+           ghost={"o": "Opt[bytes]"},
+           requires=[("flags-octet", "0 <= msg.header.command_flags < 256"),
+                     ("identity-encodable", "encodable(self.origin_host) and encodable(self.realm_name)"),
+                     ("origin-host-attr", "implies(hasattr(msg, 'origin_host'), has(msg, 'origin_host'))"),
+                     ("realm-attr-set", "implies(hasattr(msg, 'destination_realm'), has(msg, 'destination_realm') and "
+                                        "not is_none(msg.destination_realm) and valid_utf8(some(msg.destination_realm)))"),
+                     ("windows-well-formed", "win_ok(self, o)"),
+                     ("windows-not-shared", "win_sep(self, o, msg.origin_host) and implies(mkey(msg) in self._origin_waiting_answer, "
+                                            "win_sep(self, o, self._origin_waiting_answer[mkey(msg)][0]))"),
+                     ("apps-registered", "implies(mkey(msg) in self._app_waiting_answer, self._app_waiting_answer[mkey(msg)]._node == self)")],
+           ensures=[("never-answers-an-answer", "implies(not is_req(msg), nothing_sent(conn))"),
+                    ("at-most-one-answer", "len(out(conn)) <= old(len(out(conn))) + 1 and "
+                                           "items(out(conn))[0:old(len(out(conn)))] == old(items(out(conn)))"),
+                    ("answer-mirrors-the-request", "implies(len(out(conn)) == old(len(out(conn))) + 1, mirrors(new_out(conn), msg))"),
+                    ("duplicate-is-rejected-by-the-node",
+                     "implies(old(dup_cond(self, msg)), no_delivery(self) and len(out(conn)) == old(len(out(conn))) + 1 and "
+                     "(new_out(conn).result_code == 5012 or new_out(conn).result_code == 5005))"),
+                    ("base-protocol-never-reaches-applications",
+                     "implies(msg.header.command_code == 257 or msg.header.command_code == 280 or "
+                     "msg.header.command_code == 282, no_delivery(self))")],
+           raises=[],
+           ghost_modifies=["conn._write_msg_queue.g_put", "self.g_dlv_app", "self.g_dlv_msg", "self.g_ans_app", "self.g_ans_msg"],
+           modifies=["dict:self._sent_answers", "dict:self._origin_waiting_answer", "*deque:int", "dict:self._peer_waiting_answer",
+                     "*dict:Dict[int,float]", "*PeerCounters.cer", "*PeerCounters.cea", "*PeerCounters.dwr", "*PeerCounters.dwa",
+                     "*PeerCounters.dpr", "*PeerCounters.dpa", "*PeerCounters.requests", "*PeerCounters.answers",
+                     "*PeerConnection.state", "*PeerConnection._last_dwr", "conn.node_name", "conn.auth_application_ids",
+                     "conn.acct_application_ids", "conn.origin_host", "conn.host_identity", "conn.host_ip_address",
+                     "*Peer.connection", "*Peer.disconnect_reason", "*Peer.last_connect", "*Peer.last_disconnect",
+                     "dict:self._half_ready_connections", "dict:self.connections", "dict:self.peer_sockets",
+                     "*Event.flag", "*StoppableThread.stopped", "*Socket.closed", "*WaitingMessage.answer"],
+           props=["C07", "C17", "C14"],
+           note="message handler of every connection: raises nothing (C14), at most one answer and only for requests (C07), "
+                "T-flag duplicates rejected without delivery (C17)")
